@@ -291,8 +291,16 @@ def c02(tier, seed):
                        "with real sleeping) plus free-running OS threads; every record and every supervisor StepState must be a behaviour of RexLaw and "
                        "agree with the first run on the common prefix. distinct = distinct (job, schedule, history) with an accepted trace")
     rep.assumptions += ["what the supervisor observes = the supervisor's own StepState returned by reset()/step() (other nodes' entries in the returned GraphState are a racy snapshot by design)",
-                        "grid time domain (DESIGN 3.1)", "gate scheduling points as listed in DESIGN Appendix A"]
-    return rep.finish()
+                        "grid time domain (DESIGN 3.1) for the exact tier; continuous delay distributions: runs under different gate schedules / free threads agree on "
+                        "the common prefix after projection to microseconds (RexOrder, clause DeterministicAcrossSchedules)",
+                        "gate scheduling points as listed in DESIGN Appendix A"]
+    # off-grid: Normal / mixture / off-grid deterministic delays; the same initial graph state under 3 (6) schedules, a third of the graphs on free threads
+    ojobs = []
+    for i, cfg in enumerate(_graphs(seed + 250, 4 if quick else 24, tie_every=0, handmade=0)):
+        ojobs.append(dict(kind="pyfunc", module="harness.order", func="order_job", id=f"c02o{i}", cfg=cfg, seed=seed + i, mode="continuous",
+                          nsteps=6 if quick else 10, episodes=3 if quick else 6, policy=POLICIES[i % 5], gated=(i % 3 != 2), timeout=600))
+    ostats = engine.run_order_campaign(rep, ojobs)
+    return rep.finish(dict(order_tier=ostats))
 
 
 def c06(tier, seed):
